@@ -53,6 +53,40 @@ PRIMS = {
 TWO = {"cmp", "if4", "if5", "len"}     # shapes that take a two-entry category vector
 
 
+def penalty_kinds(snap):
+    """which penalty function each shipped primitive class overrides, read from the headers of the
+    snapshot: z = none (symbol::penalty_nvi returns 0), c4 = comparison_function_penalty,
+    e12 = fetch_index(1) == fetch_index(2), u = something else (not compared)"""
+    import os
+    import re
+    out = {}
+    for h, pre in (("int", "int"), ("real", "real"), ("bool", "bool"), ("string", "string")):
+        try:
+            txt = open(os.path.join(snap, "kernel/gp/src/primitive/%s.h" % h)).read()
+        except OSError:
+            continue
+        txt = re.sub(r"//[^\n]*", "", txt)
+        parts = re.split(r"\bclass\s+(\w+)\s*:\s*public\s+(?:function|terminal)", txt)
+        for i in range(1, len(parts) - 1, 2):
+            name, body = parts[i], parts[i + 1]
+            m = re.search(r"penalty_nvi\s*\([^)]*\)\s*const\s*(?:final|override)?\s*\{(.*?)\}", body, re.S)
+            if not m:
+                kind = "z"
+            else:
+                b = " ".join(m.group(1).split())
+                if re.fullmatch(r"return comparison_function_penalty\(ci\);", b):
+                    kind = "c4"
+                elif re.search(r"fetch_index\(1\)\s*==\s*\w+->fetch_index\(2\)\s*;", b) and b.count("fetch_index") == 2:
+                    kind = "e12"
+                else:
+                    kind = "u"
+            out["%s_%s" % (pre, name)] = kind
+    return out
+
+
+PEN = {}
+
+
 def dbits(x):
     return "%016x" % struct.unpack("<Q", struct.pack("<d", x))[0]
 
@@ -104,7 +138,8 @@ def sym_model(s, idx):
     k = s["k"]
     if k == "P":
         cat, ac, par = sym_info(s)
-        return "P/%d/%d/%s/%d" % (idx[s["id"]], cat, ",".join(map(str, ac)) or "-", 1 if par else 0)
+        return "P/%d/%d/%s/%d/%s" % (idx[s["id"]], cat, ",".join(map(str, ac)) or "-", 1 if par else 0,
+                                     PEN.get(s["id"], "z"))
     if k == "V":
         return "V/%d/%d" % (s["id"], s["cat"])
     return "K/%s/%d" % (sym_value(s), s["cat"])
@@ -329,8 +364,17 @@ def gen_random_case(rnd, size_class, full_rows=False):
         for v in variables:
             dom = doms[v["cat"]]
             ex.append("v" if rnd.random() < 0.06 else value_for(rnd, dom, illtyped))
-        mode = rnd.choice("bBeeskklLsssLlC")
-        l = rnd.choice(loci) if mode in "kl" else tuple(case["best"])
+        mode = rnd.choice("bBeeskklLsssLlCpT")
+        l = rnd.choice(loci) if mode in "klp" else tuple(case["best"])
+        if mode == "T":
+            # a team of 1..4 blocks of this genome whose outputs are numbers
+            numeric = [x for x in loci if doms[x[1]] in ("real", "int")]
+            if not numeric:
+                mode = "s"
+            else:
+                if "team" not in case or rnd.random() < 0.3:
+                    case["team"] = [rnd.choice(numeric) for _ in range(rnd.randint(1, 4))]
+                mode = "T:" + ";".join("%d,%d" % m for m in case["team"])
         runs.append({"mode": mode, "l": list(l), "ex": ex})
     case["runs"] = runs
     return case
@@ -719,14 +763,55 @@ def judge(cases, env, sink, hist):
         if mhead != "W 1":
             sink.add_diff({"case": hl[k][:300]}, mhead, "-", "generated genome is not wf_genome_b (generator bug)")
         _, shared = active(c, c["best"])
-        if shared or len({tuple(r["ex"]) for r in c["runs"] if r["mode"] in "slLBC"}) >= 2:
+        if shared or len({tuple(r["ex"]) for r in c["runs"] if r["mode"][0] in "slLBCT"}) >= 2:
             sink.nontriv(hl[k])
         for j, run_ in enumerate(c["runs"]):
-            bump("mode", run_["mode"])
+            bump("mode", run_["mode"][0])
             hr, hf, hs, _ = hruns[j]
             mr, md, ms, masked = mruns[j]
             bump("outcome", "THROW" if hr == "THROW" else hr[0])
             rj = dict(rep, run_index=j, mode=run_["mode"])
+            if run_["mode"] == "p":
+                # penalty_locus: correspondence only (the property does not speak about penalties)
+                cellp = cell_map(c).get(tuple(run_["l"]))
+                pid = cellp["sym"].get("id") if cellp and cellp["sym"]["k"] == "P" else None
+                if mr == "p:UB":
+                    bump("outcome", "penalty-reads-missing-argument")
+                    hist.setdefault("notes", {})["penalty of %s reads an argument index the gene does not "
+                                                 "have (comparison_function_penalty on arity < 4)" % pid] = 1
+                elif PEN.get(pid, "z") == "u":
+                    bump("outcome", "penalty-not-modelled")
+                elif hr != mr or (hs != ms and hs != "?"):
+                    sink.add_diff({"case": hl[k][:400], "run": j}, "R %s S %s" % (mr, ms), "R %s S %s" % (hr, hs),
+                                  "penalty_locus differs")
+                continue
+            if run_["mode"].startswith("T:"):
+                # O6: a team's output is the running mean of what its members return on their own
+                members = hf.split(";")
+                if any(x.startswith("s:") for x in members):
+                    bump("outcome", "team-with-string-member-not-modelled")
+                    continue
+                exp, avg, count = None, 0.0, 0.0
+                for mres in members:
+                    if mres == "THROW":
+                        exp = "THROW"
+                        break
+                    if mres == "v":
+                        continue
+                    x = float(int(mres[2:])) if mres[0] == "i" else struct.unpack("<d", struct.pack("<Q", int(mres[2:], 16)))[0]
+                    count += 1.0
+                    avg += (x - avg) / count
+                if exp is None:
+                    exp = dtok(avg) if count > 0.0 else "v"
+                if avg != avg:
+                    exp = "d:7ff8000000000000"
+                if hr != mr:
+                    sink.add_diff({"case": hl[k][:400], "run": j}, "R %s" % mr, "R %s" % hr, "team output differs")
+                if hr != exp:
+                    sink.add_violation("team", "run %d: a reg_lambda_f over the team %s returns %s, the running mean of "
+                                       "its members' own results %s is %s" % (j, run_["mode"][2:], hr, members, exp),
+                                       dict(rj, got=hr, members=members, expected=exp))
+                continue
             # correspondence: machine model vs implementation (result and state)
             if hs == "?":
                 # the private memo / ip_ no longer have the modelled shape: results only
@@ -973,6 +1058,9 @@ def run(ck):
                           "well-formed genome; UB (out-of-range index, default-constructed gene) is the outcome "
                           "RStuck, C++ exceptions are RThrow and are part of the equality with the denotation")
 
+    PEN.clear()
+    PEN.update(penalty_kinds(L["snap"]))
+    ck.coverage["penalty_overrides"] = {k: v for k, v in PEN.items() if v != "z"}
     harness = _retry(vv.build_harness, "h_interp")
     model = vv.ocaml_model("Interp")
     idx = {n: i for i, n in enumerate(idents)}
@@ -1016,6 +1104,8 @@ def run(ck):
                        "interpreter<i_mep>::cache_/ip_ no longer have the shape the model mirrors (rows x categories "
                        "matrix of {valid, value}, locus): the state-level correspondence could not be established; "
                        "results were still compared and judged by the oracles")
+    for n_ in hist.pop("notes", {}):
+        ck.notes.append(n_)
     ck.coverage["histogram"] = hist
     ck.coverage["runs_judged_against_tree_denotation"] = hist["outcome"].get("judged-against-den", 0)
     ck.coverage["programs"] = len(cases)
